@@ -35,7 +35,7 @@ ASSUMPTIONS = ['tmp_dir is on the same file system (rename atomic)',
                'one storage operation at a time (overlap is C15)']
 CELL_BUDGET_S = {'quick': 240, 'thorough': 2400}
 SAMPLE_P = 0.02
-MAX_WITNESSES = 6
+MAX_WITNESSES = 10
 OPS = ['write', 'increment_attempts', 'set_timestamp', 'mark', 'remove']
 RC = ['a@x', 'b@x', 'c@y']
 
